@@ -59,7 +59,15 @@ def run(prog):
                     if H.tag(a[1]) == "field" and H.lit_value(a[2]) is True:
                         for c in chars:
                             got[c] = a[1][2]
-        obs.append(ok(RULE, "flags:table", site(f), "# 0 - space + set alt zero left blank sign") if got == SPEC_FLAGS else
+        # a flag field that was renamed (the reference name no longer exists in the flags struct) is accepted under its new name as long
+        # as the five characters still set five different fields
+        fields = set()
+        for unit, a in prog.adts():
+            if a["path"].endswith("format::CFlags"):
+                fields = {fl["name"] for v in a["variants"] for fl in v["fields"]}
+        same = set(got) == set(SPEC_FLAGS) and len(set(got.values())) == len(got) and all(
+            got[c] == SPEC_FLAGS[c] or (fields and SPEC_FLAGS[c] not in fields and got[c] not in SPEC_FLAGS.values()) for c in got)
+        obs.append(ok(RULE, "flags:table", site(f), "# 0 - space + set alt zero left blank sign") if same else
                    bad(RULE, "flags:table", site(f), "flag table differs from the specification: got %s, expected %s" % (got, SPEC_FLAGS)))
     # ---- %g threshold
     h = prog.hir.get(F + "format_code")
@@ -71,8 +79,9 @@ def run(prog):
             c = n[1]
             if H.tag(c) == "binary" and c[1] == "||":
                 l, r = c[2], c[3]
-                lok = H.tag(l) == "binary" and l[1] == "<" and H.local_name(l[2]) == "exponent" and str(H.lit_value(l[3])) in ("-4.0", "-4", "-4.")
-                rok = H.tag(r) == "binary" and r[1] == ">=" and H.local_name(r[2]) == "exponent"
+                # the same local on both sides (called `exponent` today)
+                lok = H.tag(l) == "binary" and l[1] == "<" and H.local_name(l[2]) and str(H.lit_value(l[3])) in ("-4.0", "-4", "-4.")
+                rok = H.tag(r) == "binary" and r[1] == ">=" and H.local_name(r[2]) and H.local_name(r[2]) == H.local_name(l[2])
                 if lok and rok:
                     sci = any(True for _ in H.calls(n[2], path=F + "render_float_sci"))
                     fl = n[3] is not None and any(True for _ in H.calls(n[3], path=F + "render_float"))
@@ -88,6 +97,11 @@ def run(prog):
     if h:
         # the width of the sign column is `if neg || blank || sign { 1 } else { 0 }` (written inline or bound to a local first), and it is
         # taken off the padding (saturating_sub, or a guarded `-` whose guard R-ARITH checks)
+        # parameters by position of the public signature render_integer(out, neg, iv, padding, precision, blank, sign, ..): their names may change
+        an = list(f.arg_names) if f is not None else []
+        SIGN_FLAGS = {an[1], an[5], an[6]} if len(an) > 6 else {"neg", "blank", "sign"}
+        PADDING = an[3] if len(an) > 3 else "padding"
+
         def sign_width(e):
             e = H.strip_try(e)
             if H.tag(e) != "if":
@@ -96,15 +110,15 @@ def run(prog):
             names = {x[1][1] for x in H.walk(cond) if H.tag(x) == "path" and x[1][0] == "local"}
             ors = all(x[1] == "||" for x in H.nodes(cond, "binary"))
             vals = [x[2] for x in H.walk(e[2]) if H.tag(x) == "lit"] + [x[2] for x in H.walk(e[3]) if H.tag(x) == "lit"] if len(e) > 3 and e[3] is not None else []
-            return names == {"neg", "blank", "sign"} and ors and vals == [1, 0]
+            return names == SIGN_FLAGS and ors and vals == [1, 0]
         bound = {l[1][1] for l in H.nodes(h["body"], "let") if H.tag(l[1]) == "bind" and l[2] is not None and sign_width(l[2])}
         is_w = lambda e: sign_width(e) or H.local_name(e) in bound
         for c in H.calls(h["body"], suffix="::saturating_sub"):
             args = H.call_args(c)
-            if len(args) == 2 and H.local_name(args[0]) == "padding" and is_w(args[1]):
+            if len(args) == 2 and H.local_name(args[0]) == PADDING and is_w(args[1]):
                 good = True
         for b2 in H.nodes(h["body"], "binary"):
-            if b2[1] == "-" and H.local_name(b2[2]) == "padding" and is_w(b2[3]):
+            if b2[1] == "-" and H.local_name(b2[2]) == PADDING and is_w(b2[3]):
                 good = True
     obs.append(ok(RULE, key, site(f), "one column is reserved when a sign character is printed: neg || blank || sign") if good else
                bad(RULE, key, site(f) if f else "", "zero padding does not reserve the sign column for exactly neg || blank || sign"))
